@@ -47,3 +47,19 @@ Definition py_is_int (v : pyval) : bool := match v with VInt _ | VNpInt _ => tru
 Inductive eff :=
 | EffSeedGlobal (a : option Z)        (* np.random.seed(a) *)
 | EffResetSeedData (a : option Z).    (* self._experiment.reset_seed_data(a) *)
+
+(* ---- the state-and-exception monad of the translated functions that make random draws / touch objects:
+   W = everything mutable (the world); an exception stops the computation, the world stays as it was at the raise ---- *)
+Definition SM (W A : Type) : Type := W -> pyres A * W.
+Definition mret {W A} (a : A) : SM W A := fun w => (PyVal a, w).
+Definition mraise {W A} (cls msg : string) : SM W A := fun w => (PyExc cls msg, w).
+Definition mbind {W A B} (m : SM W A) (k : A -> SM W B) : SM W B :=
+  fun w => match m w with (PyVal a, w1) => k a w1 | (PyExc cls msg, w1) => (PyExc cls msg, w1) end.
+(* a `for` loop whose body may fall through with a new state (inl) or `return` a value (inr) *)
+Fixpoint mfor {W X S R} (xs : list X) (s : S) (body : S -> X -> SM W (S + R)) : SM W (S + R) :=
+  match xs with
+  | [] => mret (inl s)
+  | x :: t => mbind (body s x) (fun r => match r with inl s' => mfor t s' body | inr v => mret (inr v) end)
+  end.
+(* LIST * int *)
+Definition py_list_mul {A} (l : list A) (n : Z) : list A := concat (repeat l (Z.to_nat n)).
